@@ -40,6 +40,7 @@ pub struct TraceViolation {
 }
 
 pub const HYP_CAP: usize = 48;
+pub const PENDING_CAP: usize = 24;
 
 pub struct TraceMonitor {
     pub k: usize,
@@ -63,6 +64,9 @@ pub struct TraceMonitor {
     pub zero_moves: u64,
     /// callback-free hook: every resolved decision is also pushed here when enabled
     pub first_calls: Vec<(Vec<f64>, Option<f64>)>,
+    /// k == 1: every earlier vector stays a possible current state (one parameter: nothing can
+    /// be told apart by position), so only the set of vectors seen is kept
+    seen1: std::collections::HashSet<u64>,
 }
 
 fn ham(a: &[u64], b: &[u64]) -> usize {
@@ -90,6 +94,7 @@ impl TraceMonitor {
             two_coordinate_moves: 0,
             zero_moves: 0,
             first_calls: vec![],
+            seen1: std::collections::HashSet::new(),
         }
     }
 
@@ -108,7 +113,26 @@ impl TraceMonitor {
         self.last = Some((bits.clone(), score));
         if idx == 0 {
             self.initial = Some((bits.clone(), score));
+            if self.k == 1 && bits.len() == 1 {
+                self.seen1.insert(bits[0]);
+            }
             self.hyps = vec![Hyp { v: bits, score, pending: vec![] }];
+            return vec![];
+        }
+        if self.k == 1 && bits.len() == 1 {
+            // set mode: no decision can be resolved; moves are measured against the nearest
+            // possible parent
+            if let Some(r) = &self.ranges {
+                let half = (r[0].1 - r[0].0) / 2.;
+                let x = f64::from_bits(bits[0]);
+                let mv = self.seen1.iter().map(|b| (x - f64::from_bits(*b)).abs() / half).fold(f64::INFINITY, f64::min);
+                if mv.is_finite() && mv > self.max_move_over_halfrange {
+                    self.max_move_over_halfrange = mv;
+                    self.worst_move = Some(json!({"call": idx, "proposal": v, "move_over_half_range": mv, "note": "single parameter: nearest of all earlier values"}));
+                }
+            }
+            self.seen1.insert(bits[0]);
+            self.n_unresolvable += 1;
             return vec![];
         }
         // possible parents
@@ -195,6 +219,14 @@ impl TraceMonitor {
                 out = common;
             }
         }
+        // decisions that stay disputed for long are given up (never used as evidence)
+        for h in self.hyps.iter_mut() {
+            if h.pending.len() > PENDING_CAP {
+                let cut = h.pending.len() - PENDING_CAP;
+                h.pending.drain(0..cut);
+                self.n_unresolvable += cut as u64;
+            }
+        }
         // a step on which the hypotheses disagree about *which* step-idx decisions exist
         // stays pending; bound the work
         if self.hyps.len() > HYP_CAP {
@@ -227,7 +259,7 @@ impl TraceMonitor {
     /// the state handed back must be one of the possible current states, bit for bit
     pub fn check_returned(&mut self, v: &[f64]) -> bool {
         let bits: Vec<u64> = v.iter().map(|x| x.to_bits()).collect();
-        let ok = self.hyps.iter().any(|h| h.v == bits);
+        let ok = if self.k == 1 && bits.len() == 1 { self.seen1.contains(&bits[0]) } else { self.hyps.iter().any(|h| h.v == bits) };
         if !ok {
             self.violations.push(TraceViolation {
                 what: "returned-state-is-not-a-possible-current-state".into(),
